@@ -112,6 +112,10 @@ func main() {
 				{"Provider", "findBlock", "providerFindBlock"},
 				{"Provider", "GetToken", "providerGetToken"},
 			}},
+			{"frac/token/table_loader.go", []fn{
+				{"TableLoader", "load", "tableLoaderLoad"},
+				{"TableLoader", "readBlock", "tableLoaderReadBlock"},
+			}},
 			{"frac/token/table_entry.go", []fn{
 				{"TableEntry", "getLastTID", "entryGetLastTID"},
 				{"TableEntry", "checkTIDInBlock", "entryCheckTIDInBlock"},
@@ -146,5 +150,5 @@ func main() {
 				e.Strs(x.def, skeleton(f, fd), fl.path+": statement skeleton of "+x.name)
 			}
 		}
-	}, "pattern/substring.go", "pattern/pattern.go", "frac/token/table.go", "frac/token/provider.go", "frac/token/table_entry.go", "frac/active_token_list.go", "util/util.go", "parser/token_literal.go", "frac/sealed_index.go")
+	}, "pattern/substring.go", "pattern/pattern.go", "frac/token/table.go", "frac/token/provider.go", "frac/token/table_loader.go", "frac/token/table_entry.go", "frac/active_token_list.go", "util/util.go", "parser/token_literal.go", "frac/sealed_index.go")
 }
